@@ -110,8 +110,10 @@ bool ConfigData::SaveToFileAtomically(const path& file_path) {
   if (!saved) {
     return false;
   }
+  RIME_VERIF_CRASHPOINT("ConfigData::SaveToFileAtomically:written");
   std::error_code ec;
   std::filesystem::rename(temp_path, file_path, ec);
+  RIME_VERIF_CRASHPOINT("ConfigData::SaveToFileAtomically:renamed");
   if (ec) {
     LOG(ERROR) << "failed to save config file '" << file_path
                << "': " << ec.message();
